@@ -15,8 +15,21 @@ CHECKS = {
                    "exhaustion are outside the clause.",
         design_ref="DESIGN.md 2.1, 3/C04, Appendix A",
     ),
+    "C19": dict(
+        category="other",
+        technique="provenance (taint) analysis of all interpolation holes and ast identifier sites of the code "
+                  "generators; identifier freshness; sanitizer/validator audit",
+        text="Decides, for every interpolation hole of every code template of the five generator modules and every "
+             "identifier handed to the ast builders, that no external key, user-chosen name or default repr reaches "
+             "generated source except under !r, behind a fixed prefix after identifier validation, keyword-guarded, "
+             "or through the sanitizer; and that template-owned identifiers cannot be captured by field-derived ones. "
+             "Universal over strings because it is decided per interpolation site, not per input.",
+        level_note="Trusted: " + TB + "; inspect.Parameter rejects keywords/non-identifiers; repr() of str/int/tuple "
+                   "is a literal. Behaviour 'according to C03/C13' is those properties.",
+        design_ref="DESIGN.md 3/C19",
+    ),
 }
 
 # properties whose check is still under construction: listed as not claimed until their check exists
 PENDING = {f"C{n:02d}": "check under construction in this round; not claimed until it exists"
-           for n in (2, 3, 5, 6, 7, 8, 9, 10, 11, 12, 13, 14, 15, 18, 19, 20)}
+           for n in (2, 3, 5, 6, 7, 8, 9, 10, 11, 12, 13, 14, 15, 18, 20)}
